@@ -705,7 +705,13 @@ rc::Gen<Op> gen_op(bool concurrent)
             v.push_back(cs::Elem{i % 5, 3});
         return v;
     });
-    auto elems = concurrent ? rc::gen::oneOf(small, small, small, small, small, small, small, bulk) : small;
+    auto medium = rc::gen::map(rc::gen::resize(100, rc::gen::inRange(17, 41)), [](int n) {
+        std::vector<cs::Elem> v;
+        for (int i = 0; i < n; ++i)
+            v.push_back(cs::Elem{(i * 3) % 5, 3});
+        return v;
+    });
+    auto elems = concurrent ? rc::gen::oneOf(small, small, small, small, small, small, medium, bulk) : small;
     return rc::gen::build<Op>(rc::gen::set(&Op::code, weighted<int>(codes)), rc::gen::set(&Op::k, uni_int(0, 7)), rc::gen::set(&Op::allow, weighted<int>({{6, 3}, {2, 1}, {2, 2}})),
                               rc::gen::set(&Op::ttl_ms, ttl), rc::gen::set(&Op::peek, rc::gen::map(uni_int(0, 2), [](int v) { return v == 0; })),
                               rc::gen::set(&Op::flavour, weighted<int>({{5, 0}, {2, 1}, {1, 2}, {1, 3}})), rc::gen::set(&Op::elems, elems),
@@ -719,6 +725,7 @@ struct GProg
     std::vector<Op>              prefix;
     std::vector<Op>              t0, t1, t2;
     int                          suffix_variant{0};
+    int                          big{0}; // 0: capacity 1-3; 1..3: capacity 70 / 130 / 200 filled by one range insert that then expires (batching / chunking code)
     std::vector<std::vector<int>> schedules;
 };
 
@@ -739,6 +746,25 @@ Program build_program(const GProg& g)
     p.cfg.seed      = static_cast<uint64_t>(g.seed);
     p.uni           = g.cap + g.extra;
     p.prefix        = g.prefix;
+    if (g.big > 0)
+    {
+        static const int bc[] = {0, 70, 130, 200};
+        p.cfg.cap    = static_cast<size_t>(bc[g.big % 4]);
+        p.uni        = bc[g.big % 4] + 2;
+        p.cfg.ttl_ms = 3;
+        Op fill;
+        fill.code    = cs::O_INSR;
+        fill.allow   = bx::A_BOTH;
+        fill.flavour = bx::F_VEC;
+        for (int k = 0; k < bc[g.big % 4]; ++k)
+            fill.elems.push_back(cs::Elem{k, 3});
+        Op adv;
+        adv.code  = cs::O_ADV;
+        adv.dt_ns = (g.suffix_variant % 2) ? 5'000'000 : 1'000'000; // everything expired / everything still live
+        p.prefix.clear();
+        p.prefix.push_back(fill);
+        p.prefix.push_back(adv);
+    }
     for (auto* t : {&g.t0, &g.t1, &g.t2})
         if (!t->empty())
             p.threads.push_back(*t);
@@ -804,6 +830,7 @@ rc::Gen<GProg> gen_prog(const std::vector<int>& kinds, int max_ops)
         rc::gen::set(&GProg::prefix, rc::gen::resize(6, rc::gen::container<std::vector<Op>>(gen_op(false)))), rc::gen::set(&GProg::t0, thr1), rc::gen::set(&GProg::t1, thr1),
         rc::gen::set(&GProg::t2, rc::gen::oneOf(rc::gen::just(std::vector<Op>{}), rc::gen::just(std::vector<Op>{}), thr)),
         rc::gen::set(&GProg::suffix_variant, uni_int(0, 3)),
+        rc::gen::set(&GProg::big, weighted<int>({{30, 0}, {1, 1}, {1, 2}, {1, 3}})),
         rc::gen::set(&GProg::schedules, rc::gen::resize(6, rc::gen::container<std::vector<std::vector<int>>>(
                                             rc::gen::resize(30, rc::gen::container<std::vector<int>>(weighted<int>({{6, 0}, {3, 1}, {1, 2}})))))));
 }
